@@ -737,7 +737,8 @@ fn wio(e: std::io::Error) -> WOut {
 
 pub type WriteFn = fn(&[u8], &mut dyn std::io::Write) -> Option<WOut>;
 /// returns (result, required_len reported on a space error, rest length on success)
-pub type SliceWriteFn = fn(&[u8], &mut [u8]) -> Option<Result<usize, (usize, usize)>>;
+/// Err: (required_len, len, a statement of the same error elsewhere that disagrees with those fields)
+pub type SliceWriteFn = fn(&[u8], &mut [u8]) -> Option<Result<usize, (usize, usize, Option<String>)>>;
 
 pub struct WriterType {
     pub name: &'static str,
@@ -877,18 +878,38 @@ fn w_ip_headers(b: &[u8], w: &mut dyn std::io::Write) -> Option<WOut> {
     })
 }
 
-fn sw_eth(b: &[u8], out: &mut [u8]) -> Option<Result<usize, (usize, usize)>> {
+/// the other places a space error states its numbers: the conversion into the builder's error
+/// type and the message
+fn space_error_restated(e: &err::SliceWriteSpaceError) -> Option<String> {
+    let conv = err::packet::BuildSliceWriteError::from(e.clone());
+    if conv != err::packet::BuildSliceWriteError::Space(e.required_len) {
+        return Some(format!("BuildSliceWriteError::from(..) = {:?}", conv));
+    }
+    let text = format!("{}", e);
+    let numbers: Vec<usize> = text.split(|c: char| !c.is_ascii_digit()).filter_map(|t| t.parse().ok()).collect();
+    if !numbers.contains(&e.required_len) || !numbers.contains(&e.len) {
+        return Some(format!("message {:?}", text));
+    }
+    let text = format!("{}", conv);
+    let numbers: Vec<usize> = text.split(|c: char| !c.is_ascii_digit()).filter_map(|t| t.parse().ok()).collect();
+    if !numbers.contains(&e.required_len) {
+        return Some(format!("message of the converted error {:?}", text));
+    }
+    None
+}
+
+fn sw_eth(b: &[u8], out: &mut [u8]) -> Option<Result<usize, (usize, usize, Option<String>)>> {
     let h = Ethernet2Header::from_slice(b).ok()?.0;
     Some(match h.write_to_slice(out) {
         Ok(rest) => Ok(rest.len()),
-        Err(e) => Err((e.required_len, e.len)),
+        Err(e) => Err((e.required_len, e.len, space_error_restated(&e))),
     })
 }
-fn sw_sll(b: &[u8], out: &mut [u8]) -> Option<Result<usize, (usize, usize)>> {
+fn sw_sll(b: &[u8], out: &mut [u8]) -> Option<Result<usize, (usize, usize, Option<String>)>> {
     let h = LinuxSllHeader::from_slice(b).ok()?.0;
     Some(match h.write_to_slice(out) {
         Ok(rest) => Ok(rest.len()),
-        Err(e) => Err((e.required_len, e.len)),
+        Err(e) => Err((e.required_len, e.len, space_error_restated(&e))),
     })
 }
 
